@@ -51,7 +51,7 @@ func runC08(l *core.Ledger) {
 	heldOps, _ := opsUnderLocks(allFuncs(l.Prog, r.pkg))
 	for _, ho := range heldOps {
 		switch ho.op.kind {
-		case "lock":
+		case "lock", "deliver":
 			continue
 		case "send":
 			if isResponseChan(ho.op.chanT) {
@@ -144,6 +144,8 @@ func c08Walk(l *core.Ledger, rule, rootKey string, root *frame, ctx ssa.Value) i
 					} else {
 						l.Bad(rule, key, pos, "blocking select without a case on the call's own context ("+selectCasesDesc(op.sel)+"): the caller ignores cancellation/deadline while this wait lasts")
 					}
+				case "deliver":
+					l.OK(rule, key, pos, "delivery to a streaming router: waits only for a call that is still running, and not beyond its completion (C09-W3)")
 				case "send":
 					if isResponseChan(op.chanT) {
 						l.OK(rule, key, pos, "send on a reply channel: cannot block given the capacity rule C05-M6 / C09-W3")
